@@ -99,6 +99,13 @@ TimerPool::TimerToken TimerPool::Impl::doAt(const TimePoint &time_point, Callbac
 {
     using namespace std::chrono;
     auto d = duration_cast<Milliseconds>(time_point - system_clock::now());
+    //! 时间点已经过去了，则立即执行。负的时长会被当成 uint64_t 加到到期时刻上，
+    //! 一旦其绝对值超过单调时钟的当前值，到期时刻就回绕到极远的将来，该任务永远不会被执行
+    //! (a time point in the past: run as soon as possible. A negative duration is added to the deadline as
+    //!  uint64_t; once it exceeds the monotonic clock's value the deadline wraps far into the future and
+    //!  the task never runs)
+    if (d.count() < 0)
+        d = Milliseconds::zero();
     return doAfter(d, std::move(cb));
 }
 
